@@ -53,7 +53,7 @@ def make_validator(settings):
                         raw.settimeout(2)
                         raw.connect(path)
                     else:
-                        host = settings.get("TACD_HOST") or ident
+                        host = (settings.get("TACD_HOST") or ident).strip("[]")
                         raw = socket.create_connection((host, int(settings.get("TACD_PORT") or 5001)), timeout=2)
                     ctx = ssl.SSLContext(ssl.PROTOCOL_TLS_CLIENT)
                     ctx.check_hostname = False
@@ -132,7 +132,8 @@ def scenario(i, group, git, setvars, ident, root, issuances):
             port = 20000 + (port - 20000 + 101) % 12000
     if setvars:
         settings.update({"HTTP_ROOT": os.path.join(scratch, "www"), "TACD_PID_ROOT": os.path.join(scratch, "run"),
-                         "TACD_SOCK_ROOT": os.path.join(scratch, "sock"), "TACD_HOST": "127.0.0.1", "TACD_PORT": str(port)})   # every variable its own value
+                         "TACD_SOCK_ROOT": os.path.join(scratch, "sock"), "TACD_HOST": "[::1]" if i % 4 == 3 else "127.0.0.1", "TACD_PORT": str(port)})   # every variable its own value
+        # (TACD_HOST may be any address tacd can listen on; the hook renders host:port, so an IPv6 literal is written in brackets)
         if len(ident) > 40:
             # a unix socket path holds 107 octets: long names need a short directory
             settings["TACD_SOCK_ROOT"] = "/dev/shm/vc20_%d_%d" % (os.getpid(), i)
